@@ -441,4 +441,14 @@ def run(prog, tier, seed):
                    'driver follows its table',
                    'atom names are identifier-style and not reserved words',
                    'n-ary and/or have arity >= 2']
+    # "every CTL formula when printed in CTL* notation": the only route is
+    # str(f.cast_to(CTLS)); the cast must give the same tree in the target
+    from . import c08
+    from ..formulas import signatures
+    from ..report import adopt
+    sigs = T(signatures, prog)
+    if sigs is not None:
+        results = results + adopt(T.results(T(c08.rule_sort3, prog, sigs)),
+                                  PROP, 'printing a CTL formula in CTL* '
+                                  'notation goes through cast_to')
     return results, expl, assumptions, T.extra()
